@@ -1210,7 +1210,13 @@ func builtins() []*Builtin {
 			f := a[1].(*Func)
 			argc := f.ParamCount()
 			if argc < 1 || argc > 3 {
-				return Undef, otherErr("each arity")
+				ev.OddObjectCallbacks++
+				if ev.RejectOddObjectCallbacks {
+					return Undef, otherErr("each arity")
+				}
+				if argc > 3 {
+					argc = 3
+				}
 			}
 			out := []interface{}{}
 			for _, k := range sortedKeys(m) {
@@ -1238,7 +1244,13 @@ func builtins() []*Builtin {
 			f := a[1].(*Func)
 			argc := f.ParamCount()
 			if argc < 1 || argc > 3 {
-				return Undef, otherErr("sift arity")
+				ev.OddObjectCallbacks++
+				if ev.RejectOddObjectCallbacks {
+					return Undef, otherErr("sift arity")
+				}
+				if argc > 3 {
+					argc = 3
+				}
 			}
 			out := map[string]interface{}{}
 			for _, k := range sortedKeys(m) {
